@@ -12,6 +12,7 @@ import (
 	"os"
 	"path/filepath"
 	"strings"
+	"sync"
 	"testing"
 
 	"github.com/Dash-Industry-Forum/livesim2/cmd/livesim2/app"
@@ -39,11 +40,21 @@ type Case struct {
 }
 
 var encBundled = []string{"testpic_2s", "testpic_6s", "testpic_8s", "testpic_alt_seg_dur_stl", "WAVE/vectors/cfhd_sets/14.985_29.97_59.94/t1/2022-10-17"}
-var drmModes = []string{"eccp_cenc", "eccp_cbcs", "eccp_cenc", "eccp_cbcs", "drm_EZDRM-1-key-cbcs-test", "drm_EZDRM-2-keys-cbcs-test"}
+var drmModes = []string{"eccp_cenc", "eccp_cbcs", "eccp_cenc", "eccp_cbcs", "drm_EZDRM-1-key-cbcs-test", "drm_EZDRM-2-keys-cbcs-test",
+	// packages the harness derives from the one-key test package (ls.DrmConfigFile): scheme cenc, and both schemes without explicitIV
+	"drm_VERIF-1-key-cenc", "drm_VERIF-1-key-cbcs-noiv", "drm_VERIF-1-key-cenc-noiv"}
+
+// derivedSrv serves the bundled assets with the derived DRM configuration.
+var derivedSrv = sync.OnceValues(func() (*ls.Server, error) {
+	return ls.New(ls.BundledRoot, func(c *app.ServerConfig) { c.DrmCfgFile = ls.DrmConfigFile() })
+})
 
 func genCase(t *rapid.T) (Case, *env.Env) {
 	// generated layouts are served by their own server without a DRM configuration: ClearKey modes only there
 	tg := gen.Target(t, assetgen.Opts{Audio: []string{"aac", "aac", ""}, MinFrames: 10, MaxFrames: 120}, 55, encBundled)
+	if tg.Layout != nil && rapid.IntRange(0, 2).Draw(t, "avc3") == 0 {
+		tg.Layout.VCodec = "avc3.64001e" // the other AVC sample entry name: video all the same
+	}
 	e, err := env.Get(tg)
 	if err != nil {
 		t.Fatalf("HARNESS: %v", err)
@@ -112,13 +123,14 @@ type cpixKey struct {
 }
 
 var cpixCache = map[string]map[string][]byte{}
+var cpixScheme = map[string]string{}
 
 func cpixKeys(pkg string) (map[string][]byte, error) {
 	if m, ok := cpixCache[pkg]; ok {
 		return m, nil
 	}
-	dir := ls.RepoRoot() + "/pkg/drm/testdata"
-	data, err := os.ReadFile(filepath.Join(dir, "drm_config_test.json"))
+	dir := filepath.Dir(ls.DrmConfigFile())
+	data, err := os.ReadFile(ls.DrmConfigFile())
 	if err != nil {
 		return nil, err
 	}
@@ -152,6 +164,7 @@ func cpixKeys(pkg string) (map[string][]byte, error) {
 				return nil, err
 			}
 			m[strings.ReplaceAll(strings.ToLower(k.Kid), "-", "")] = b
+			cpixScheme[pkg] = k.Scheme
 		}
 		cpixCache[pkg] = m
 		return m, nil
@@ -162,6 +175,7 @@ func cpixKeys(pkg string) (map[string][]byte, error) {
 type info struct {
 	protected bool
 	frags     int
+	refused   bool
 }
 
 func checkCase(c Case, e *env.Env) (*hx.Violation, info) {
@@ -194,8 +208,23 @@ func checkCase(c Case, e *env.Env) (*hx.Violation, info) {
 		return hx.V("harness", "no MPD lists %s", rep.ID), inf
 	}
 	// (1) the MPD announces scheme and default_KID
+	srv := e.Srv
+	noIV := strings.HasSuffix(c.DRM, "-noiv")
+	if strings.HasPrefix(c.DRM, "drm_VERIF-") {
+		ds, derr := derivedSrv()
+		if derr != nil {
+			return hx.V("harness", "server with the derived DRM configuration: %v", derr), inf
+		}
+		srv = ds
+	}
+	// a package whose key carries no explicitIV may be refused (there is no IV to announce for cbcs); what is served must decrypt
+	refused := func(r ls.Resp) bool { return noIV && r.Code >= 400 }
 	murl := ls.URL(parts, e.Asset.Path, mpdName, now)
-	mr := e.Srv.Get(murl)
+	mr := srv.Get(murl)
+	if refused(mr) {
+		inf.refused = true
+		return nil, inf
+	}
 	if mr.Code != 200 {
 		return hx.V("mpd-status", "%s -> %v", murl, mr), inf
 	}
@@ -229,14 +258,21 @@ func checkCase(c Case, e *env.Env) (*hx.Violation, info) {
 	}
 	wantScheme := strings.TrimPrefix(c.DRM, "eccp_")
 	if strings.HasPrefix(c.DRM, "drm_") {
-		wantScheme = "cbcs"
+		if _, err := cpixKeys(strings.TrimPrefix(c.DRM, "drm_")); err != nil {
+			return hx.V("harness", "%v", err), inf
+		}
+		wantScheme = cpixScheme[strings.TrimPrefix(c.DRM, "drm_")]
 	}
 	if scheme != wantScheme {
 		return hx.V("mpd-scheme", "%s: scheme %q, requested %s", murl, scheme, c.DRM), inf
 	}
 	// (2) the init segment's protection box carries the same key id and scheme
 	iurl := ls.URL(parts, e.Asset.Path, rep.InitURI, now)
-	ir := e.Srv.Get(iurl)
+	ir := srv.Get(iurl)
+	if refused(ir) {
+		inf.refused = true
+		return nil, inf
+	}
 	if ir.Code != 200 {
 		return hx.V("init-status", "%s -> %v", iurl, ir), inf
 	}
@@ -276,7 +312,7 @@ func checkCase(c Case, e *env.Env) (*hx.Violation, info) {
 		}
 		b64 := strings.TrimRight(base64.URLEncoding.EncodeToString(kidBytes), "=")
 		body, _ := json.Marshal(map[string]any{"kids": []string{b64}, "type": "temporary"})
-		lr := e.Srv.Do("POST", u.Path, body, map[string]string{"Content-Type": "application/json"})
+		lr := srv.Do("POST", u.Path, body, map[string]string{"Content-Type": "application/json"})
 		if lr.Code != 200 {
 			return hx.V("licence-status", "POST %s -> %v", u.Path, lr), inf
 		}
@@ -307,7 +343,11 @@ func checkCase(c Case, e *env.Env) (*hx.Violation, info) {
 	// (4) decrypting the served segment gives exactly the clear segment of the same URL and instant
 	name := tl.SegName(rep, c.N)
 	eurl, curl := ls.URL(parts, e.Asset.Path, name, now), ls.URL(clearParts, e.Asset.Path, name, now)
-	er, cr := e.Srv.Get(eurl), e.Srv.Get(curl)
+	er, cr := srv.Get(eurl), srv.Get(curl)
+	if refused(er) && cr.Code == 200 {
+		inf.refused = true
+		return nil, inf
+	}
 	if er.Code != 200 || cr.Code != 200 {
 		return hx.V("segment-status", "%s -> %d, %s -> %d", eurl, er.Code, curl, cr.Code), inf
 	}
@@ -390,6 +430,12 @@ func TestC10(t *testing.T) {
 		}
 		if c.Target.Layout != nil {
 			cls = append(cls, "asset:generated")
+		}
+		if strings.HasPrefix(c.DRM, "drm_VERIF-") {
+			cls = append(cls, "cpix:derived-package")
+		}
+		if inf.refused {
+			cls = append(cls, "cpix:no-explicitIV-refused")
 		}
 		if inf.protected && v == nil {
 			run.NonTrivial(c)
